@@ -7,6 +7,7 @@ Import ListNotations.
 Require Import C12.MemoBase C12.gen.Memoize C12.gen.SourceFlags C12.MemoLaws C12.Model C12.Sym C12.Proofs C12.SymOk.
 From mathcomp Require Import all_ssreflect all_algebra.
 Require Import C12.Algebra.
+Require Import C12.gen.CacheSites C12.Sites.
 
 (* ---------------------------------------------------------------- the memoize protocol (translated source) *)
 
@@ -220,3 +221,45 @@ Theorem transplant_needs_compatibility_refuted :
     [/\ U *m U^T = 1%:M, V^T *m V = 1%:M & S_t *m S_t^T = 1%:M + S *m S^T]
     /\ (L *m U *m S_t) *m (L *m U *m S_t)^T != A + Bm *m Bm^T.
 Proof. exact transplant_needs_compatibility_refuted_rat. Qed.
+
+(* ---------------------------------------------------------------- derived operators and cache hand-over sites *)
+Local Close Scope ring_scope.
+
+(* every operator a derivation creates (the result and its children) ends up with a cache whose entries are all valid for
+   ITS OWN matrix - empty, or the transplanted factors under the side conditions of the event - and so does every older
+   object: caches are per object, nothing is carried over but what deriv_finish writes *)
+Theorem derived_operator_cache_valid : forall K fl valid compat diaglike is1x1 shifted scaled kron,
+  kern_ok K valid compat diaglike is1x1 shifted scaled kron ->
+  forall st h i d kids res_,
+  Inv K valid diaglike is1x1 shifted scaled kron h ->
+  event_ok K fl compat diaglike is1x1 shifted scaled kron (st, h) (EDerive i d kids res_) ->
+  forall j o', get K j (snd (snd (step K fl (st, h) (EDerive i d kids res_)))) = Some o' ->
+  memo_ok K valid (o_mat K o') (o_memo K o').
+Proof.
+  intros K fl valid compat diaglike is1x1 shifted scaled kron KO st h i d kids res_ I Ev j o' G.
+  destruct (step_sound K fl valid compat diaglike is1x1 shifted scaled kron KO st h (EDerive i d kids res_) I Ev) as (I' & _ & _).
+  destruct (I' j o' G) as (Mo & _). exact Mo.
+Qed.
+
+(* a derivation other than add_low_rank / cat_rows hands NOTHING over: its result is a freshly allocated object without
+   any cache, whatever the caches of self (and of the children it shares with self) hold *)
+Theorem derived_operator_starts_with_empty_cache : forall K fl st i d kids res_ h o j h',
+  no_handover d -> get K i h = Some o ->
+  run_deriv K fl st i d kids res_ h = (Ok j, h') ->
+  get K j h' = Some (mk_obj K res_ (deriv_mat K d (o_mat K o))) /\
+  o_memo K (mk_obj K res_ (deriv_mat K d (o_mat K o))) = None /\ o_adhoc K (mk_obj K res_ (deriv_mat K d (o_mat K o))) = None.
+Proof. exact derived_starts_empty. Qed.
+
+(* the source's cache sites (tables regenerated from linear_operator/operators/*.py on every run; finite: by computation):
+   ignore_args=True sits on a method with arguments only where its soundness is proved (ignore_args_sound) ... *)
+Theorem ignore_args_only_where_proved : forallb ignore_ok cached_sites = true.
+Proof. vm_compute. reflexivity. Qed.
+
+(* ... a cache name belongs to one method name ... *)
+Theorem cache_names_belong_to_one_method : names_ok cached_sites = true.
+Proof. vm_compute. reflexivity. Qed.
+
+(* ... and entries are written into a cache from outside a @cached method (add_to_cache) exactly at the sites the model
+   transcribes: a new hand-over site (e.g. an indexing method passing a cached diagonal on) breaks this obligation *)
+Theorem handover_sites_are_the_modelled_ones : same_set handover_sites handover_modelled = true.
+Proof. vm_compute. reflexivity. Qed.
